@@ -25,6 +25,7 @@ type Op struct {
 	Inst   int    `json:"i,omitempty"`
 	VSeed  uint64 `json:"vs,omitempty"` // value generator seed
 	VSize  int    `json:"vz,omitempty"` // value generator size budget
+	Mut    uint64 `json:"mu,omitempty"` // if non-zero the generated value is then mutated with this seed (related values)
 	Vocab  int    `json:"vo,omitempty"` // index+1 of the scenario vocabulary to draw strings from
 	Shared int    `json:"sh,omitempty"` // index+1 of a scenario-level shared value
 	Data   string `json:"d,omitempty"`  // hex input bytes
@@ -141,7 +142,12 @@ func (sc *Scenario) genValue(op *Op) reflect.Value {
 		o.Vocab = sc.Vocabs[op.Vocab-1]
 	}
 	o.NonCanonical = op.Pat == "raw"
-	return world.Gen(ti.T, &r, o)
+	v := world.Gen(ti.T, &r, o)
+	if op.Mut != 0 {
+		mr := engine.PRNG{S: op.Mut}
+		world.Mutate(v, &mr, o)
+	}
+	return v
 }
 
 // soloMarshal marshals on a brand-new instance in a quiet world.
@@ -334,6 +340,7 @@ func (p *Prepared) prepareOp(op *Op) (*prepOp, bool) {
 // execution
 
 type liveVal struct {
+	slot int           // > 0: the value lives in re-used target slot `slot` (replaced on the next decode into it)
 	ptr  reflect.Value // pointer to the decoded value
 	exp  reflect.Value // expected (independent copy)
 	op   int
@@ -345,6 +352,7 @@ type taskState struct {
 	x       *executor
 	viol    []*Violation
 	targets map[int]reflect.Value
+	twins   map[int]reflect.Value // C19: the same slot for the non-interned twin type
 	bufs    map[int][]byte
 	live    []liveVal
 	out     []byte
@@ -360,6 +368,24 @@ type executor struct {
 	insts []world.API
 	tasks []*taskState
 	hooks PropHooks
+}
+
+// rules says which observations are violations of which property. Each check
+// only reports what its own property states; what belongs to another property
+// is counted as a probe instead, so that a change which breaks only that other
+// property does not raise an alarm here.
+type rules struct {
+	solo     bool // results must equal the solo run (C07; C10 for fresh targets)
+	panics   bool // a panic on valid data is a violation (C07)
+	liveness bool // livelock / deadlock of the run is a violation (C07, C19)
+	warm     bool // codecs are built single-threaded before the run: first-use races are C07's
+}
+
+var propRules = map[string]rules{
+	"C07": {solo: true, panics: true, liveness: true},
+	"C10": {solo: true, warm: true},
+	"C11": {warm: true},
+	"C19": {liveness: true, warm: true},
 }
 
 // PropHooks lets a property add op kinds and checks to the shared executor.
@@ -418,6 +444,10 @@ func (t *taskState) runOne(i int, po *prepOp) {
 			}
 			if he, ok := r.(HarnessError); ok {
 				panic(he)
+			}
+			if !propRules[t.x.prop].panics {
+				t.probe("other_property:panic_on_valid_data")
+				return
 			}
 			st := stackString()
 			v := &Violation{Prop: t.x.prop, Kind: "panic", Task: t.id, OpIdx: i, OpKind: po.op.Kind, Type: po.op.Type,
@@ -482,6 +512,12 @@ func (t *taskState) sharedOp(i int, po *prepOp) {
 }
 
 func (t *taskState) checkBytes(i int, po *prepOp, b []byte, err error) {
+	if !propRules[t.x.prop].solo {
+		if errText(err) != po.expErr || !world.SameEncoding(po.ti.T, b, po.expBytes) {
+			t.probe("other_property:encoding_differs_from_solo")
+		}
+		return
+	}
 	if e := errText(err); e != po.expErr {
 		t.fail(i, po, "error-mismatch", fmt.Sprintf("Marshal error %q, alone it is %q", e, po.expErr))
 		return
@@ -492,6 +528,16 @@ func (t *taskState) checkBytes(i int, po *prepOp, b []byte, err error) {
 }
 
 func (t *taskState) checkDecoded(i int, po *prepOp, out reflect.Value, err error) {
+	if !propRules[t.x.prop].solo {
+		if errText(err) != po.expErr {
+			t.probe("other_property:error_differs_from_solo")
+		} else if err == nil {
+			if ok, _ := world.Equal(out.Elem(), po.expVal); !ok {
+				t.probe("other_property:value_differs_from_solo")
+			}
+		}
+		return
+	}
 	if e := errText(err); e != po.expErr {
 		t.fail(i, po, "error-mismatch", fmt.Sprintf("Unmarshal error %q, alone it is %q", e, po.expErr))
 		return
@@ -576,10 +622,26 @@ func Execute(prep *Prepared, hooks PropHooks, forced []engine.Dec, useForced boo
 	for _, cfg := range sc.Insts {
 		x.insts = append(x.insts, world.NewInstance(cfg))
 	}
+	if propRules[sc.Prop].warm {
+		// first use happens here, single-threaded, outside the simulation
+		for _, ops := range prep.ops {
+			for _, po := range ops {
+				if po.ti != nil && !po.ti.Bad {
+					func() {
+						defer func() { recover() }()
+						x.insts[po.op.Inst].CodecForType(po.ti.T)
+						if po.ti.Twin != "" {
+							x.insts[po.op.Inst].CodecForType(typeInfo(po.ti.Twin).T)
+						}
+					}()
+				}
+			}
+		}
+	}
 	n := len(sc.Tasks)
 	fns := make([]func(), n)
 	for i := 0; i < n; i++ {
-		ts := &taskState{id: i, x: x, targets: map[int]reflect.Value{}, bufs: map[int][]byte{}, byKind: map[string]int{}, probes: map[string]int{}}
+		ts := &taskState{id: i, x: x, targets: map[int]reflect.Value{}, twins: map[int]reflect.Value{}, bufs: map[int][]byte{}, byKind: map[string]int{}, probes: map[string]int{}}
 		x.tasks = append(x.tasks, ts)
 		fns[i] = ts.run
 	}
@@ -605,7 +667,12 @@ func Execute(prep *Prepared, hooks PropHooks, forced []engine.Dec, useForced boo
 			out.Violations = append(out.Violations, &Violation{Prop: sc.Prop, Kind: "panic", Task: i, OpIdx: -1, OpKind: "task", Msg: fmt.Sprint(r)})
 		}
 	}
-	switch sim.St.Abort {
+	abort := sim.St.Abort
+	if !propRules[sc.Prop].liveness && abort != engine.AbortNone {
+		out.Probes["other_property:run_aborted"]++
+		abort = engine.AbortNone
+	}
+	switch abort {
 	case engine.AbortBudget:
 		out.Violations = append(out.Violations, &Violation{Prop: sc.Prop, Kind: "livelock", Task: -1, OpIdx: -1, OpKind: "run", Msg: fmt.Sprintf("step budget exceeded after %d yields: some operation does not return", sim.St.Steps)})
 	case engine.AbortDeadlock:
